@@ -483,11 +483,14 @@ def upperEdge (p : Path) : Bd → Bd
   | .at k => if p.isPrefixOf k then .at (k.drop p.length)
              else if pathLt p (k.take p.length) then .unb else .out
 
+def embedT : Tree H → PT H
+  | .leaf v => .leaf v
+  | .bin l r => .bin (embedT l) (embedT r)
+  | .edge p c => .edge p (embedT c)
+
 def embed : Trie H → PT H
   | none => .nil
-  | some (.leaf v) => .leaf v
-  | some (.bin l r) => .bin (embed (some l)) (embed (some r))
-  | some (.edge p c) => .edge p (embed (some c))
+  | some t => embedT t
 
 /-- the keys below an edge path, with the path stripped; `none` if some key is not below it -/
 def stripPrefix (p : Path) (kvs : List (Path × H)) : Option (List (Path × H)) :=
@@ -573,6 +576,11 @@ def verifyMulti [DecidableEq H] (A : HashAlg H) (rc : RCfg) (root : H) (first : 
           match fill A rc t2 (.at first) (.at last) first.length false kvs with
           | none => .err
           | some f => if f.phash A = root then .ok (hasRightPT t2 last) else .err
+
+/-- the value the claimed entries give to `k`: the last entry with that key (`Update` in order) -/
+def lastVal (kvs : List (Path × H)) (k : Path) : Option H :=
+  ((kvs.filter (fun kv => kv.1 = k)).getLast?).map (·.2)
+
 
 /-! ### The free term algebra (ideal hash) -/
 
